@@ -48,9 +48,14 @@ def c04_stages(tier):
 
 def c17_stages(tier):
     if tier == "quick":
-        return [xport_stage("C17", 300_000, crash_is_violation=True), xport_stage("C17", 320, name="miri", kind="miri", shards=16, timeout=600)]
+        return [xport_stage("C17", 120_000, crash_is_violation=True), xport_stage("C17", 160, name="miri", kind="miri", shards=16, timeout=600)]
     return [xport_stage("C17", 10_000_000, timeout=2400, crash_is_violation=True),
             xport_stage("C17", 10_000, name="miri", kind="miri", shards=16, timeout=3000)]
+
+
+def c13_stages(tier):
+    cases = 400_000 if tier == "quick" else 40_000_000
+    return [{"name": "native", "kind": "native", "pkg": "abi", "bin": "abi", "prop": "C13", "cases": cases, "core": True, "timeout": 1200}]
 
 
 def c12_stages(tier):
@@ -106,6 +111,25 @@ PROPS = {
         "rule": "case = writer sequence | reader sequence | whole request; distinct = (op kinds, number of expected dirty pages, regions) resp. "
                 "(opcode, dirty/touched page counts, regions, reply count).",
         "assumptions": ["vm-memory AtomicBitmap semantics"],
+    },
+    "C13": {
+        "level": "exploration",
+        "stages": c13_stages,
+        "floor": 400,
+        "exhaustive": True,
+        "technique": "runtime monitoring: crate struct layouts/constants probed at run time (offset_of, size_of, stamped as_slice bytes) against a table "
+                     "emitted by a C probe compiled against the kernel uapi header; exhaustive sweep of Opcode::from over all 2^32 values; randomized "
+                     "stat conversion checks",
+        "level_text": "Every pub struct of abi::fuse_abi and abi::virtio_fs is compared field by field (offset, width, and where the stamped bytes show up in "
+                      "ByteValued::as_slice) with the layout a C probe prints for the installed kernel header; every opcode, notify code and flag constant "
+                      "with the header's value; Opcode::from is evaluated on all 2^32 inputs; stat64/statvfs64/SetattrIn conversions on random and boundary "
+                      "values in both directions. The struct/constant table and the opcode space are enumerated completely (exhaustive), conversions sampled.",
+        "level_note": "Explicit rule classes: compat-prefix (SetxattrIn), crate-split (InitIn+InitIn2), renamed padding words (OpenOut.passthrough=backing_id, "
+                      "InHeader.padding=total_extlen+padding, NotifyInvalEntryOut.padding=flags); FD_PASSTHROUGH and MaxOpcode are crate-only. Two constants "
+                      "newer than the installed header come from a supplementary table. x86_64 only.",
+        "rule": "one evaluation per (struct, field), per struct size, per constant, per opcode number (2^32) and per random stat conversion; distinct = "
+                "(struct, field) / constant names / first conversions; nothing is trivial.",
+        "assumptions": ["/usr/include/linux/fuse.h is protocol 7.38", "FUSE_HAS_RESEND = 1<<39 and FUSE_NOTIFY_RESEND = 7 (uapi 7.40)"],
     },
     "C12": {
         "level": "exploration",
